@@ -95,23 +95,23 @@ Lemma pop_stop now c p rest p' co :
   pop now (mkMgr c (p :: rest)) = MOk (mkMgr p' rest) co -> stopLevel p' = stopLevel p.
 Proof.
   intros Ht. unfold pop. cbn [cur parents].
-  assert (H1 : forall p1, requireCPU now (cpu (used c)) p = ROk p1 ->
+  assert (H1 : forall p1, requireMem (mem (used c)) p = ROk p1 ->
             stopLevel p1 = stopLevel p /\ trackTime p1 = false).
-  { unfold requireCPU. rewrite Ht. cbn [andb].
-    destruct (negb (trackCpu p)); [intros p1 H; inversion H; subst; auto|].
+  { unfold requireMem.
+    destruct (negb (trackMem p)); [intros p1 H; inversion H; subst; auto|].
     destruct (hard_stop p && live p); [discriminate|].
     destruct (atLimit _ _ && live p); [discriminate|].
     intros p1 H; inversion H; subst; cbn; auto. }
-  destruct (requireCPU now (cpu (used c)) p) as [p1| |]; try discriminate.
+  destruct (requireMem (mem (used c)) p) as [p1| |]; try discriminate.
   destruct (H1 p1 eq_refl) as [S1 T1].
-  assert (H2 : forall p2, requireMem (mem (used c)) p1 = ROk p2 ->
+  assert (H2 : forall p2, requireCPU now (cpu (used c)) p1 = ROk p2 ->
             stopLevel p2 = stopLevel p1 /\ trackTime p2 = false).
-  { unfold requireMem.
-    destruct (negb (trackMem p1)); [intros p2 H; inversion H; subst; auto|].
+  { unfold requireCPU. rewrite T1. cbn [andb].
+    destruct (negb (trackCpu p1)); [intros p2 H; inversion H; subst; auto|].
     destruct (hard_stop p1 && live p1); [discriminate|].
     destruct (atLimit _ _ && live p1); [discriminate|].
     intros p2 H; inversion H; subst; cbn; auto. }
-  destruct (requireMem (mem (used c)) p1) as [p2| |]; try discriminate.
+  destruct (requireCPU now (cpu (used c)) p1) as [p2| |]; try discriminate.
   destruct (H2 p2 eq_refl) as [S2 T2]. rewrite T2.
   intros H; inversion H; subst. congruence.
 Qed.
